@@ -3,6 +3,8 @@ import json
 import re
 import sys
 
+from . import core
+
 NOMAX = 99
 NOBOUND = -1
 
@@ -275,8 +277,8 @@ def replay_chunk(args):
             out["n"] += 1
             out["per_kind"][query["q"]] = out["per_kind"].get(query["q"], 0) + 1
             try:
-                obs = perform(query, fam, par, ch)
-            except Exception as e:  # noqa: an unexpected exception is an observation, too
+                obs = core.call_with_deadline(lambda: perform(query, fam, par, ch))
+            except Exception as e:  # noqa: an unexpected exception (or a call that never returns) is an observation, too
                 obs = {"q": query["q"], "raised": "%s: %s" % (type(e).__name__, str(e)[:200])}
             observed[fam] = obs
             if "raised" not in obs and same(query, obs):
